@@ -156,6 +156,12 @@ def encodings(en, tier: str, seed: int) -> List[bytes]:
 
 def run(cr: CheckRun) -> None:
     eh, en = c04._imports()
+    # on the model: the canonical reading of every structural encoding is total and depends on the instruction's own bytes only
+    res = run_tlc(SD, "MCSemSpace", "MCSemSpace_quick.cfg" if cr.tier == "quick" else "MCSemSpace.cfg", workers=vlib.NCPU, tag="C09-semspace", timeout=3400, heap="8g")
+    if res.invariant_violated or "Error:" in res.out:
+        raise MachineryError("MCSemSpace (CanonOfTruncation / ResolveTotal) failed on the specification itself:\n" + res.out[-2500:])
+    cr.add_tlc("MCSemSpace (ResolveTotal, CanonOfTruncation)", res)
+    cr.mark("model")
     encs = encodings(en, cr.tier, cr.seed)
     items = [(i + 1, e) for i, e in enumerate(encs)]
     nsh = vlib.NCPU * 2
